@@ -461,3 +461,4 @@ class Snapshot(Sym):
 
     def __init__(self, obj, heap):
         self.obj, self.heap = obj, dict(heap)
+JOIN_SP = z3.Function("join_space", z3.ArraySort(z3.IntSort(), z3.StringSort()), z3.IntSort(), z3.StringSort())
